@@ -11,15 +11,15 @@ open QV
 variable {Kn : String → Prop} {ρ : Env} {σ0 : FState} {s0 : CState}
 
 /-- one gate whose target is in use, belongs to the statement, is not cached, and has not been read yet or is
-marked (an ancilla of the or-chain is marked before its gates); the hole on the target is closed -/
+marked; the hole on the target is closed -/
 theorem gateQ {H : Nat → Prop} {cls : GClass} {cs : List Nat} {t : Nat} {u : Unit} {s s' : CState}
     (h : (append cls (cs ++ [t])).run s = .ok (u, s')) (gi : GIh Kn ρ σ0 s0 H s)
     (hc : cls.isMCXLike = true) (hnop : cls.isNop = false)
     (hcs : ∀ c ∈ cs, ¬ Avail s c) (ht0 : Avail s0 t) (ht : ¬ Avail s t)
-    (hur : Unread s0 s t ∨ t ∈ s.qc.marked) (hnn : ∀ n, Kn n → dictGet? s.qc.qmap n ≠ some t)
+    (hur : Unread s0 s t) (hnn : ∀ n, Kn n → dictGet? s.qc.qmap n ≠ some t)
     (hnc : ∀ p ∈ s.expq, p.2 ≠ t) :
     GIh Kn ρ σ0 s0 (fun q => H q ∧ q ≠ t) s' ∧ Fr Kn σ0 s0 s s' (· = t) NoN (· ∈ cs) ∧ TgtL s0 s' t ∧
-      Appended cls (cs ++ [t]) s s' ∧ t ∉ cs ∧ (Unread s0 s t → Unread s0 s' t) := by
+      Appended cls (cs ++ [t]) s s' ∧ t ∉ cs ∧ Unread s0 s' t := by
   obtain ⟨gi', ha, g, hgw, hL⟩ := gate_gi h gi hc hnop hcs ht0 ht hur hnn
   have htg : TgtL s0 s' t := TgtL.of_gate hgw hL
   have gi'' := gi'.close' (by rw [ha.expq]; exact hnc) htg
@@ -29,7 +29,7 @@ theorem gateQ {H : Nat → Prop} {cls : GClass} {cs : List Nat} {t : Nat} {u : U
     have := (gi''.good.gates_ok g hm).2.1
     rwa [hgw] at this
   have htcs : t ∉ cs := fun hm => (List.nodup_append.mp hnd).2.2 t hm t (by simp) rfl
-  exact ⟨gi'', fr, htg, ha, htcs, fun hu => Unread.of_gate hgw hL hu htcs⟩
+  exact ⟨gi'', fr, htg, ha, htcs, Unread.of_gate hgw hL hur htcs⟩
 
 theorem or_bool (d a b : Bool) : Bool.xor (Bool.xor (Bool.xor d a) b) (a && (b && true)) = Bool.xor d (a || b) := by
   cases d <;> cases a <;> cases b <;> rfl
@@ -38,11 +38,11 @@ theorem or_bool (d a b : Bool) : Bool.xor (Bool.xor (Bool.xor d a) b) (a && (b &
 theorem orGate_g {H : Nat → Prop} {acc i t : Nat} {u : Unit} {s s' : CState}
     (h : StateT.run (do cx acc t; cx i t; mcx [acc, i] t : M Unit) s = .ok (u, s'))
     (gi : GIh Kn ρ σ0 s0 H s) (hacc : ¬ Avail s acc) (hi : ¬ Avail s i) (ht0 : Avail s0 t) (ht : ¬ Avail s t)
-    (hur : Unread s0 s t ∨ t ∈ s.qc.marked) (hnn : ∀ n, Kn n → dictGet? s.qc.qmap n ≠ some t)
+    (hur : Unread s0 s t) (hnn : ∀ n, Kn n → dictGet? s.qc.qmap n ≠ some t)
     (hnc : ∀ p ∈ s.expq, p.2 ≠ t) :
     GIh Kn ρ σ0 s0 (fun q => H q ∧ q ≠ t) s' ∧ Fr Kn σ0 s0 s s' (· = t) NoN (fun q => q = acc ∨ q = i) ∧
       TgtL s0 s' t ∧ cur σ0 s' t = Bool.xor (cur σ0 s t) (cur σ0 s acc || cur σ0 s i) ∧
-      (Unread s0 s t → Unread s0 s' t) ∧ s'.qc.marked = s.qc.marked ∧ s'.qc.qmap = s.qc.qmap ∧
+      Unread s0 s' t ∧ s'.qc.marked = s.qc.marked ∧ s'.qc.qmap = s.qc.qmap ∧
       s'.expq = s.expq ∧ acc ≠ t ∧ i ≠ t := by
   obtain ⟨u1, s1, h1, k1⟩ := run_bind_ok.mp h
   obtain ⟨u2, s2, h2, h3⟩ := run_bind_ok.mp k1
@@ -51,18 +51,10 @@ theorem orGate_g {H : Nat → Prop} {acc i t : Nat} {u : Unit} {s s' : CState}
         rw [this]; exact hacc) ht0 ht hur hnn hnc
   have hat : acc ≠ t := fun e => n1 (by simp [e])
   have hav1 : ∀ q, Avail s1 q ↔ Avail s q := avail_congr a1.free a1.nq
-  have hur1 : Unread s0 s1 t ∨ t ∈ s1.qc.marked := by
-    rcases hur with hu | hm
-    · exact Or.inl (ur1 hu)
-    · exact Or.inr (by rw [a1.marked]; exact hm)
   obtain ⟨g2, f2, _, a2, n2, ur2⟩ := gateQ (cs := [i]) (t := t) h2 g1 rfl rfl
     (by intro c hc; have : c = i := by simpa using hc
         rw [this]; exact fun h' => hi ((hav1 _).mp h')) ht0 (fun h' => ht ((hav1 _).mp h'))
-    hur1 (by rw [a1.qmap]; exact hnn) (by rw [a1.expq]; exact hnc)
-  have hur2 : Unread s0 s2 t ∨ t ∈ s2.qc.marked := by
-    rcases hur1 with hu | hm
-    · exact Or.inl (ur2 hu)
-    · exact Or.inr (by rw [a2.marked]; exact hm)
+    ur1 (by rw [a1.qmap]; exact hnn) (by rw [a1.expq]; exact hnc)
   have hit : i ≠ t := fun e => n2 (by simp [e])
   have hav2 : ∀ q, Avail s2 q ↔ Avail s q := fun q => (avail_congr a2.free a2.nq q).trans (hav1 q)
   obtain ⟨g3, f3, tg3, a3, _, ur3⟩ := gateQ (cs := [acc, i]) (t := t) h3 g2 rfl rfl
@@ -71,9 +63,9 @@ theorem orGate_g {H : Nat → Prop} {acc i t : Nat} {u : Unit} {s s' : CState}
         rcases this with e | e <;> rw [e]
         · exact fun h' => hacc ((hav2 _).mp h')
         · exact fun h' => hi ((hav2 _).mp h')) ht0 (fun h' => ht ((hav2 _).mp h'))
-    hur2 (by rw [a2.qmap, a1.qmap]; exact hnn) (by rw [a2.expq, a1.expq]; exact hnc)
+    ur2 (by rw [a2.qmap, a1.qmap]; exact hnn) (by rw [a2.expq, a1.expq]; exact hnc)
   refine ⟨g3.monoH (fun q hh => ⟨hh.1.1.1, hh.2⟩), ((f1.trans f2).trans f3).mono ?_ ?_ ?_, tg3, ?_,
-    fun hu => ur3 (ur2 (ur1 hu)), by rw [a3.marked, a2.marked, a1.marked], by rw [a3.qmap, a2.qmap, a1.qmap],
+    ur3, by rw [a3.marked, a2.marked, a1.marked], by rw [a3.qmap, a2.qmap, a1.qmap],
     by rw [a3.expq, a2.expq, a1.expq], hat, hit⟩
   · rintro q _ ((hh | hh) | hh) <;> exact hh
   · rintro q ((hh | hh) | hh) _ _ _ <;> exact hh.elim
@@ -104,7 +96,7 @@ theorem orChain_g {dest : Nat} :
   | [i], acc, u, s, s', h, _, gi, pd, hna, hacc, hr => by
     unfold orChain at h
     obtain ⟨hni, hi⟩ := hr i List.mem_cons_self
-    obtain ⟨g3, f3, tg, hv, hur, hmk, hqm, hex, _, _⟩ := orGate_g h gi hna hni pd.av0 pd.nav (Or.inl pd.unread) pd.nn pd.nc
+    obtain ⟨g3, f3, tg, hv, hur, hmk, hqm, hex, _, _⟩ := orGate_g h gi hna hni pd.av0 pd.nav pd.unread pd.nn pd.nc
     refine ⟨g3.monoH (fun _ hh => hh.1), f3.mono (fun _ _ hh => hh) (fun _ hh _ _ _ => hh) ?_, ?_, tg, ?_⟩
     · rintro q _ (hh | hh)
       · exact Or.inl hh
@@ -131,8 +123,11 @@ theorem orChain_g {dest : Nat} :
     have hqm2 : s2.qc.qmap = s1.qc.qmap := by
       obtain ⟨_, _, _, _, _, _, b6, _⟩ := markAncilla_run3 hmk
       exact b6
+    have hgt2 : s2.qc.gates = s1.qc.gates := by
+      obtain ⟨_, b1, _⟩ := markAncilla_run3 hmk
+      exact b1
     obtain ⟨gi3, fr3, tg3, hv3, _, hmk3, hqm3, hex3, haccd, hid⟩ := orGate_g hgate gi2 (hnav2 acc hna) (hnav2 i hni)
-      pd'.av0 (fun h' => pd'.nav ((hav2 d).mp h')) (Or.inr hd2m) (by rw [hqm2]; exact pd'.nn)
+      pd'.av0 (fun h' => pd'.nav ((hav2 d).mp h')) (Unread.congr hgt2 pd'.unread) (by rw [hqm2]; exact pd'.nn)
       (by rw [hex2]; exact pd'.nc)
     have gi3' : GI Kn ρ σ0 s0 s3 := gi3.monoH (fun q hh => hh.2 hh.1)
     have fr03 := (fr1.trans fr2).trans fr3
@@ -256,7 +251,7 @@ theorem orGates_g {erets es : List Nat} {d a : Nat} {k : M Nat} {s s' : CState}
         have hblock : StateT.run (do cx q1 d; cx q2 d; mcx [q1, q2] d : M Unit) s = .ok (u4, s4) :=
           run_bind_ok.mpr ⟨u2, s2, hc1, run_bind_ok.mpr ⟨u3, s1, hc3, hm⟩⟩
         obtain ⟨g3, f3, tg, hv, _, _, _, _, hq1, hq2⟩ := orGate_g hblock gi (hes q1 (by simp)) (hes q2 (by simp))
-          pd.av0 pd.nav (Or.inl pd.unread) pd.nn pd.nc
+          pd.av0 pd.nav pd.unread pd.nn pd.nc
         refine ⟨_, g3.monoH (fun _ hh => hh.1), f3.mono (fun _ _ hh => hh) (fun _ hh _ _ _ => hh) ?_,
           f3.priv d pd (fun hh => hh.elim (fun e => hq1 e.symm) (fun e => hq2 e.symm)), tg, ?_, h2⟩
         · rintro q _ (hh | hh)
